@@ -32,12 +32,220 @@ type c15Cfg struct {
 type c15X struct {
 	p   *Prog
 	cfg c15Cfg
+	// noInline: functions whose calls are anchors themselves and must not be
+	// looked through (fixtures use in-module stand-ins for the map library).
+	noInline func(*ssa.Function) bool
+	stores   map[FieldID][]*ssa.Store
+	// mustUnsure is set (sticky; callers reset it) when must() met a call into
+	// the program that it could not follow (unresolved func value, recursion,
+	// depth): a "missing" event may then be hidden in that call.
+	mustUnsure bool
 }
 
 // c15Env maps the parameters of an inlined helper to the caller's values.
+// A c15Env is one activation of a function reached by following calls:
+// params are bound to the caller's argument values (which live in up); lex is
+// the activation of the lexically enclosing function (for closures: where the
+// free variables live); via/how say how the activation was entered; pre are the
+// branch facts (one set per path) known at via.
+type c15Arg struct {
+	V   ssa.Value
+	Env *c15Env
+}
+
 type c15Env struct {
-	params map[*ssa.Parameter]ssa.Value
+	params map[*ssa.Parameter]c15Arg
 	up     *c15Env
+	lex    *c15Env
+	fn     *ssa.Function
+	via    ssa.Instruction
+	how    string // "call", "go", "defer", "callback"
+	pre    []c15Set
+	depth  int
+}
+
+func (e *c15Env) lexOf() *c15Env {
+	if e == nil {
+		return nil
+	}
+	return e.lex
+}
+
+func (e *c15Env) depthOf() int {
+	if e == nil {
+		return 0
+	}
+	return e.depth
+}
+
+// c15Target is one possible callee of a call, with the activation in which
+// its free variables live.
+type c15Target struct {
+	Fn    *ssa.Function
+	Lex   *c15Env
+	Bound []ssa.Value // receiver(s) bound by a method value, prepended to the arguments
+	BEnv  *c15Env
+}
+
+// unwrap maps bound-method / thunk / instantiation wrappers to the origin of
+// the declared function they stand for.
+func (x *c15X) unwrap(f *ssa.Function) *ssa.Function {
+	if f == nil {
+		return nil
+	}
+	f = origin(f)
+	if f.Synthetic != "" {
+		if obj, ok := f.Object().(*types.Func); ok && obj != nil {
+			if t := x.p.SSA.FuncValue(obj.Origin()); t != nil {
+				return origin(t)
+			}
+		}
+	}
+	return f
+}
+
+// funcValues resolves the functions a func value can denote (function,
+// closure, bound method value, phi of them, a local / captured variable all
+// of whose stores resolve, a parameter bound by an activation).
+func (x *c15X) funcValues(v ssa.Value, env *c15Env, depth int) (out []c15Target, unknown bool) {
+	if depth > 6 || v == nil {
+		return nil, true
+	}
+	sv, senv := x.strip(v, env)
+	switch t := sv.(type) {
+	case *ssa.Function:
+		return []c15Target{{Fn: x.unwrap(t)}}, false
+	case *ssa.MakeClosure:
+		f, ok := t.Fn.(*ssa.Function)
+		if !ok {
+			return nil, true
+		}
+		if strings.HasPrefix(f.Synthetic, "bound method wrapper") {
+			return []c15Target{{Fn: x.unwrap(f), Bound: t.Bindings, BEnv: senv}}, false
+		}
+		return []c15Target{{Fn: origin(f), Lex: senv}}, false
+	case *ssa.Phi:
+		for _, e := range t.Edges {
+			if e == ssa.Value(t) {
+				continue
+			}
+			o, u := x.funcValues(e, senv, depth+1)
+			out = append(out, o...)
+			unknown = unknown || u
+		}
+		return
+	case *ssa.UnOp:
+		if t.Op != token.MUL {
+			return nil, true
+		}
+		cell := c15CellOf(t)
+		if cell == nil {
+			return nil, true
+		}
+		cenv := senv
+		if _, isFV := t.X.(*ssa.FreeVar); isFV {
+			cenv = senv.lexOf()
+		}
+		stores, ok := c15CellStores(cell)
+		if !ok || len(stores) == 0 {
+			return nil, true
+		}
+		for _, st := range stores {
+			e := cenv
+			if st.Parent() != cell.Parent() {
+				e = nil // stored from inside a closure: its activation is not tracked
+			}
+			o, u := x.funcValues(st.Val, e, depth+1)
+			out = append(out, o...)
+			unknown = unknown || u
+		}
+		return
+	case *ssa.Const:
+		if t.IsNil() {
+			return nil, false
+		}
+	}
+	return nil, true
+}
+
+// callTargets resolves the in-program functions a call instruction can
+// enter. unknown=true if the callee is a func value that cannot be resolved
+// (interface method calls and builtins are neither targets nor unknown).
+func (x *c15X) callTargets(cc *ssa.CallCommon, env *c15Env) (out []c15Target, unknown bool) {
+	if cc.IsInvoke() {
+		return nil, false
+	}
+	switch t := cc.Value.(type) {
+	case *ssa.Builtin:
+		return nil, false
+	case *ssa.Function:
+		return []c15Target{{Fn: x.unwrap(t)}}, false
+	case *ssa.MakeClosure:
+		return x.funcValues(t, env, 0)
+	}
+	return x.funcValues(cc.Value, env, 0)
+}
+
+// activate builds the activation of tgt for a call with the given arguments
+// (evaluated in env).
+func (x *c15X) activate(tgt c15Target, args []ssa.Value, env *c15Env, via ssa.Instruction, how string) *c15Env {
+	n := &c15Env{params: map[*ssa.Parameter]c15Arg{}, up: env, lex: tgt.Lex, fn: tgt.Fn, via: via, how: how, depth: env.depthOf() + 1}
+	ps := tgt.Fn.Params
+	i := 0
+	for _, b := range tgt.Bound {
+		if i < len(ps) {
+			n.params[ps[i]] = c15Arg{b, tgt.BEnv}
+			i++
+		}
+	}
+	for _, a := range args {
+		if i < len(ps) {
+			n.params[ps[i]] = c15Arg{a, env}
+			i++
+		}
+	}
+	return n
+}
+
+// inlinable: calls of f may be looked through.
+func (x *c15X) inlinable(f *ssa.Function) bool {
+	if f == nil || len(f.Blocks) == 0 || !x.p.InModule(f) {
+		return false
+	}
+	return x.noInline == nil || !x.noInline(f)
+}
+
+// singleReturn: call enters exactly one inlinable function that has exactly
+// one live return; returns that return and the callee's activation.
+func (x *c15X) singleReturn(call *ssa.Call, env *c15Env) (*ssa.Return, *c15Env) {
+	if env.depthOf() > 6 {
+		return nil, nil
+	}
+	ts, unknown := x.callTargets(&call.Call, env)
+	if unknown || len(ts) != 1 || !x.inlinable(ts[0].Fn) {
+		return nil, nil
+	}
+	for e := env; e != nil; e = e.up {
+		if e.fn == ts[0].Fn {
+			return nil, nil // recursion
+		}
+	}
+	var only *ssa.Return
+	for _, b := range ts[0].Fn.Blocks {
+		if (b.Index != 0 && len(b.Preds) == 0) || len(b.Instrs) == 0 {
+			continue
+		}
+		if ret, ok := b.Instrs[len(b.Instrs)-1].(*ssa.Return); ok {
+			if only != nil {
+				return nil, nil
+			}
+			only = ret
+		}
+	}
+	if only == nil {
+		return nil, nil
+	}
+	return only, x.activate(ts[0], call.Call.Args, env, call, "call")
 }
 
 type c15Kind int
@@ -289,15 +497,30 @@ outer:
 		case *ssa.Parameter:
 			for e := env; e != nil; e = e.up {
 				if a, ok := e.params[t]; ok {
-					v, env = a, e.up
+					v, env = a.V, a.Env
 					continue outer
 				}
 			}
 			return v, env
 		case *ssa.FreeVar:
 			if b := resolveFreeVar(t); b != nil {
-				v, env = b, nil
+				v, env = b, env.lexOf()
 				continue
+			}
+			return v, env
+		case *ssa.Call:
+			// a helper with a single return: the value it returns
+			if ret, nenv := x.singleReturn(t, env); ret != nil && len(ret.Results) == 1 {
+				v, env = ret.Results[0], nenv
+				continue
+			}
+			return v, env
+		case *ssa.Extract:
+			if call, ok := t.Tuple.(*ssa.Call); ok {
+				if ret, nenv := x.singleReturn(call, env); ret != nil && t.Index < len(ret.Results) {
+					v, env = ret.Results[t.Index], nenv
+					continue
+				}
 			}
 			return v, env
 		case *ssa.UnOp:
@@ -305,6 +528,13 @@ outer:
 				return v, env
 			}
 			switch a := t.X.(type) {
+			case *ssa.FieldAddr:
+				// a field of an object created locally (new T / &T{…}) that is
+				// written exactly once in the whole package: the value stored
+				if w, wenv, ok := x.localObjectField(a, env); ok {
+					v, env = w, wenv
+					continue
+				}
 			case *ssa.Alloc:
 				if w := c15AllocStore(a); w != nil {
 					v = w
@@ -314,7 +544,7 @@ outer:
 				if b := resolveFreeVar(a); b != nil {
 					if al, ok := b.(*ssa.Alloc); ok {
 						if w := c15AllocStore(al); w != nil {
-							v, env = w, nil
+							v, env = w, env.lexOf()
 							continue
 						}
 					}
@@ -326,6 +556,48 @@ outer:
 		}
 	}
 	return v, env
+}
+
+// fieldStores: every store to a field (by type and name) in the program's packages.
+func (x *c15X) fieldStores(id FieldID) []*ssa.Store {
+	if x.stores == nil {
+		x.stores = map[FieldID][]*ssa.Store{}
+		for _, fn := range x.p.Funcs {
+			allInstrs(fn, func(in ssa.Instruction) {
+				if st, ok := in.(*ssa.Store); ok {
+					if fa, ok := st.Addr.(*ssa.FieldAddr); ok {
+						fid := fieldIDOfAddr(fa)
+						x.stores[fid] = append(x.stores[fid], st)
+					}
+				}
+			})
+		}
+	}
+	return x.stores[id]
+}
+
+// localObjectField: fa addresses a field of an object allocated by `new` in
+// some activation, and that field (by type) is stored exactly once in the
+// program, into that very object: returns the stored value.
+func (x *c15X) localObjectField(fa *ssa.FieldAddr, env *c15Env) (ssa.Value, *c15Env, bool) {
+	id := fieldIDOfAddr(fa)
+	if id.Type == "" || id.Type == x.cfg.CacheT || id.Type == x.cfg.EntryT {
+		return nil, nil, false
+	}
+	bx, benv := x.strip(fa.X, env)
+	obj, ok := bx.(*ssa.Alloc)
+	if !ok || !obj.Heap {
+		return nil, nil, false
+	}
+	sts := x.fieldStores(id)
+	if len(sts) != 1 {
+		return nil, nil, false
+	}
+	sfa := sts[0].Addr.(*ssa.FieldAddr)
+	if sfa.X != ssa.Value(obj) {
+		return nil, nil, false
+	}
+	return sts[0].Val, benv, true
 }
 
 func isIntegerType(t types.Type) bool {
@@ -559,7 +831,10 @@ func (c *c15Ctx) pathsD(b *ssa.BasicBlock, env *c15Env, stack map[*ssa.BasicBloc
 		} else {
 			ps = c.pathsD(p, env, stack)
 		}
-		ef := c.edgeFacts(p, b, env, 0)
+		ef, never := c.edgeFactsX(p, b, env, 0)
+		if never {
+			continue
+		}
 		for _, s := range ps {
 			u := s.union(ef)
 			if u.contradictory() {
@@ -630,6 +905,29 @@ func (c *c15Ctx) factsWhen(v ssa.Value, want bool, env *c15Env, depth int) (fact
 			}
 			return
 		}
+		// f == nil / f != nil for a func value whose binding is known
+		if (isNilConst(a) || isNilConst(b)) && (op == token.EQL || op == token.NEQ) {
+			other := a
+			if isNilConst(a) {
+				other = b
+			}
+			if _, isSig := other.Type().Underlying().(*types.Signature); isSig {
+				ov, _ := x.strip(other, senv)
+				isNil, known := false, false
+				switch k := ov.(type) {
+				case *ssa.Const:
+					isNil, known = k.IsNil(), true
+				case *ssa.MakeClosure, *ssa.Function:
+					isNil, known = false, true
+				}
+				if known {
+					if (op == token.EQL) != isNil {
+						return facts, true // this outcome is impossible
+					}
+					return
+				}
+			}
+		}
 		// x.Compare(y) ⋈ 0, x.Sub(y) ⋈ 0
 		if isZeroConst(b) || isZeroConst(a) {
 			o, other := op, a
@@ -640,15 +938,39 @@ func (c *c15Ctx) factsWhen(v ssa.Value, want bool, env *c15Env, depth int) (fact
 				facts.add(c15Rel(o, x.term(args[0], aenv), x.term(args[1], aenv))...)
 				return
 			}
-			// clock.Since(t) ⋈ 0  ≡  now ⋈ t ; clock.Until / time.Until likewise
+			// clock.Since(t) ⋈ 0  ≡  now ⋈ t ; Until(t) ⋈ 0  ≡  t ⋈ now
 			if sc, scenv := x.strip(other, senv); sc != nil {
 				if call, ok := sc.(*ssa.Call); ok {
 					if obj := calleeObj(call); obj != nil && (obj.Name() == "Since" || obj.Name() == "Until") {
+						if now, arg, ok := x.sinceCall(call, scenv); ok {
+							if obj.Name() == "Since" {
+								facts.add(c15Rel(o, now, x.term(arg, scenv))...)
+							} else {
+								facts.add(c15Rel(o, x.term(arg, scenv), now)...)
+							}
+							return
+						}
 						c.Opaque = append(c.Opaque, obj.Name()+"(…) compared with 0")
-						_ = scenv
 						return
 					}
 				}
+			}
+		}
+		// a*k ⋈ b*k and a*k ⋈ 0 with a positive constant k (seconds -> Duration):
+		// the relation of a and b (overflow is not modelled)
+		{
+			ba, ka, oka := x.scaled(a, senv)
+			bb, kb, okb := x.scaled(b, senv)
+			switch {
+			case oka && okb && ka == kb:
+				facts.add(c15Rel(op, x.term(ba.V, ba.Env), x.term(bb.V, bb.Env))...)
+				return
+			case oka && isZeroConst(b):
+				facts.add(c15Rel(op, x.term(ba.V, ba.Env), x.term(b, senv))...)
+				return
+			case okb && isZeroConst(a):
+				facts.add(c15Rel(op, x.term(a, senv), x.term(bb.V, bb.Env))...)
+				return
 			}
 		}
 		// comparisons of derived quantities (x.Unix() ⋈ y.Unix(), …) are not
@@ -691,7 +1013,11 @@ func (c *c15Ctx) factsWhen(v ssa.Value, want bool, env *c15Env, depth int) (fact
 			if vac {
 				continue
 			}
-			ef = ef.union(c.domFacts(pred, senv, depth+1)).union(c.edgeFacts(pred, blk, senv, depth+1))
+			edge, never := c.edgeFactsX(pred, blk, senv, depth+1)
+			if never {
+				continue
+			}
+			ef = ef.union(c.domFacts(pred, senv, depth+1)).union(edge)
 			if ef.contradictory() {
 				continue
 			}
@@ -734,39 +1060,55 @@ func (c *c15Ctx) factsWhen(v ssa.Value, want bool, env *c15Env, depth int) (fact
 			c.Opaque = append(c.Opaque, "time.Time."+name)
 			return
 		}
-		// one level (at most 3 nested) of in-module boolean helpers
-		callee := staticCallee(t)
-		if callee != nil && x.p.InModule(callee) && len(callee.Blocks) > 0 && depth < 6 {
-			res := callee.Signature.Results()
-			if res.Len() == 1 {
-				nenv := &c15Env{params: map[*ssa.Parameter]ssa.Value{}, up: senv}
-				for i, pa := range callee.Params {
-					if i < len(t.Call.Args) {
-						nenv.params[pa] = t.Call.Args[i]
-					}
+		// boolean helpers / predicates: static callees, bound methods, closures and
+		// func values whose possible targets are all known are looked through
+		if ts, unknown := x.callTargets(&t.Call, senv); !unknown && len(ts) > 0 && depth < 6 && senv.depthOf() < 6 {
+			all := true
+			for _, tg := range ts {
+				if !x.inlinable(tg.Fn) || tg.Fn.Signature.Results().Len() != 1 {
+					all = false
 				}
+			}
+			if all {
 				first := true
 				var acc c15Set
-				for _, b := range callee.Blocks {
-					if b.Index != 0 && len(b.Preds) == 0 {
-						continue
-					}
-					ret, ok := b.Instrs[len(b.Instrs)-1].(*ssa.Return)
-					if !ok || len(ret.Results) != 1 {
-						continue
-					}
-					rf, vac := c.factsWhen(ret.Results[0], want, nenv, depth+2)
-					if vac {
-						continue
-					}
-					rf = rf.union(c.domFacts(b, nenv, depth+2))
-					if rf.contradictory() {
-						continue
-					}
-					if first {
-						acc, first = rf, false
-					} else {
-						acc = acc.intersect(rf)
+				for _, tg := range ts {
+					nenv := x.activate(tg, t.Call.Args, senv, t, "call")
+					for _, b := range tg.Fn.Blocks {
+						if (b.Index != 0 && len(b.Preds) == 0) || len(b.Instrs) == 0 {
+							continue
+						}
+						ret, ok := b.Instrs[len(b.Instrs)-1].(*ssa.Return)
+						if !ok || len(ret.Results) != 1 {
+							continue
+						}
+						rf, vac := c.factsWhen(ret.Results[0], want, nenv, depth+2)
+						if vac {
+							continue
+						}
+						// facts of the paths to this return: the intersection over
+						// its paths (a conjunction must hold on each)
+						ps := c.paths(b, nenv)
+						if len(ps) == 0 {
+							continue // unreachable return
+						}
+						var pf c15Set
+						for i, p1 := range ps {
+							if i == 0 {
+								pf = p1
+							} else {
+								pf = pf.intersect(p1)
+							}
+						}
+						rf = rf.union(pf)
+						if rf.contradictory() {
+							continue
+						}
+						if first {
+							acc, first = rf, false
+						} else {
+							acc = acc.intersect(rf)
+						}
 					}
 				}
 				if first {
@@ -788,6 +1130,49 @@ func (c *c15Ctx) factsWhen(v ssa.Value, want bool, env *c15Env, depth int) (fact
 	return
 }
 
+// scaled: v is base*k for a positive integer constant k.
+func (x *c15X) scaled(v ssa.Value, env *c15Env) (base c15Arg, k int64, ok bool) {
+	sv, senv := x.strip(v, env)
+	mul, isMul := sv.(*ssa.BinOp)
+	if !isMul || mul.Op != token.MUL {
+		return
+	}
+	for _, pr := range [][2]ssa.Value{{mul.X, mul.Y}, {mul.Y, mul.X}} {
+		if kc, isK := pr[1].(*ssa.Const); isK && kc.Value != nil && kc.Value.Kind() == constant.Int {
+			if kv, exact := constant.Int64Val(kc.Value); exact && kv > 0 {
+				return c15Arg{pr[0], senv}, kv, true
+			}
+		}
+	}
+	return
+}
+
+// sinceCall: call is <cache clock>.Since(t) / .Until(t) (term kind c15Now keyed
+// by the call) or time.Since(t) / time.Until(t) (kind c15WallNow).
+func (x *c15X) sinceCall(call *ssa.Call, env *c15Env) (now c15Term, arg ssa.Value, ok bool) {
+	obj := calleeObj(call)
+	if obj == nil {
+		return
+	}
+	if obj.Pkg() != nil && obj.Pkg().Path() == "time" && obj.Type().(*types.Signature).Recv() == nil && len(call.Call.Args) == 1 {
+		return c15Term{Key: fmt.Sprintf("wallnow:%p", call), Kind: c15WallNow, V: call}, call.Call.Args[0], true
+	}
+	var recv ssa.Value
+	args := call.Call.Args
+	if call.Call.IsInvoke() {
+		recv = call.Call.Value
+	} else if len(args) > 0 {
+		recv, args = args[0], args[1:]
+	}
+	if recv == nil || len(args) != 1 {
+		return
+	}
+	if _, _, id, isF := x.fieldRead(recv, env); isF && id.Type == x.cfg.CacheT && id.Field == x.cfg.ClockF {
+		return c15Term{Key: fmt.Sprintf("now:%p", call), Kind: c15Now, V: call}, args[0], true
+	}
+	return
+}
+
 func callDescC15(c *ssa.Call) string {
 	if obj := calleeObj(c); obj != nil {
 		return obj.FullName()
@@ -797,16 +1182,54 @@ func callDescC15(c *ssa.Call) string {
 
 // edgeFacts: facts established by taking the CFG edge from -> to.
 func (c *c15Ctx) edgeFacts(from, to *ssa.BasicBlock, env *c15Env, depth int) c15Set {
+	f, _ := c.edgeFactsX(from, to, env, depth)
+	return f
+}
+
+// edgeFactsX also reports that the edge can never be taken (its condition can
+// never have the required value).
+func (c *c15Ctx) edgeFactsX(from, to *ssa.BasicBlock, env *c15Env, depth int) (c15Set, bool) {
 	out := c15Set{}
 	if len(from.Instrs) == 0 || len(from.Succs) != 2 || from.Succs[0] == from.Succs[1] {
-		return out
+		return out, false
 	}
 	ifi, ok := from.Instrs[len(from.Instrs)-1].(*ssa.If)
 	if !ok {
-		return out
+		return out, false
 	}
-	f, _ := c.factsWhen(ifi.Cond, from.Succs[0] == to, env, depth+1)
-	return f
+	return c.factsWhen(ifi.Cond, from.Succs[0] == to, env, depth+1)
+}
+
+// at: the facts known at block b of activation env: the paths inside the
+// function combined with the facts known where the activation was entered.
+func (c *c15Ctx) at(b *ssa.BasicBlock, env *c15Env) []c15Set {
+	local := c.paths(b, env)
+	if env == nil || len(env.pre) == 0 {
+		return local
+	}
+	var out []c15Set
+	seen := map[string]bool{}
+	for _, p := range env.pre {
+		for _, l := range local {
+			u := p.union(l)
+			if u.contradictory() {
+				continue
+			}
+			k := strings.Join(u.keys(), "&")
+			if !seen[k] {
+				seen[k] = true
+				out = append(out, u)
+			}
+		}
+	}
+	if len(out) > 256 {
+		acc := out[0]
+		for _, s := range out[1:] {
+			acc = acc.intersect(s)
+		}
+		out = []c15Set{acc}
+	}
+	return out
 }
 
 // domFacts: facts established by the branch edges that dominate b.
@@ -841,6 +1264,13 @@ func (c *c15Ctx) cases(v ssa.Value, env *c15Env, facts c15Set, depth int) []c15C
 	if depth > 6 {
 		return []c15Case{{sv, senv, facts}}
 	}
+	idx := 0
+	call, _ := sv.(*ssa.Call)
+	if ex, ok := sv.(*ssa.Extract); ok {
+		if cl, ok := ex.Tuple.(*ssa.Call); ok {
+			call, idx = cl, ex.Index
+		}
+	}
 	switch t := sv.(type) {
 	case *ssa.Phi:
 		if c.seen[t] {
@@ -852,7 +1282,10 @@ func (c *c15Ctx) cases(v ssa.Value, env *c15Env, facts c15Set, depth int) []c15C
 		blk := t.Block()
 		for i, ev := range t.Edges {
 			pred := blk.Preds[i]
-			edge := c.edgeFacts(pred, blk, senv, depth+1)
+			edge, never := c.edgeFactsX(pred, blk, senv, depth+1)
+			if never {
+				continue
+			}
 			for _, ps := range c.paths(pred, senv) {
 				ef := facts.union(ps).union(edge)
 				if ef.contradictory() {
@@ -862,30 +1295,34 @@ func (c *c15Ctx) cases(v ssa.Value, env *c15Env, facts c15Set, depth int) []c15C
 			}
 		}
 		return out
-	case *ssa.Call:
-		callee := staticCallee(t)
-		if callee != nil && x.p.InModule(callee) && len(callee.Blocks) > 0 && callee.Signature.Results().Len() == 1 {
-			nenv := &c15Env{params: map[*ssa.Parameter]ssa.Value{}, up: senv}
-			for i, pa := range callee.Params {
-				if i < len(t.Call.Args) {
-					nenv.params[pa] = t.Call.Args[i]
-				}
+	}
+	if call != nil && senv.depthOf() < 6 {
+		ts, unknown := x.callTargets(&call.Call, senv)
+		ok := !unknown && len(ts) > 0
+		for _, tg := range ts {
+			if !x.inlinable(tg.Fn) || tg.Fn.Signature.Results().Len() <= idx {
+				ok = false
 			}
+		}
+		if ok {
 			var out []c15Case
-			for _, b := range callee.Blocks {
-				if b.Index != 0 && len(b.Preds) == 0 {
-					continue
-				}
-				ret, ok := b.Instrs[len(b.Instrs)-1].(*ssa.Return)
-				if !ok || len(ret.Results) != 1 {
-					continue
-				}
-				for _, ps := range c.paths(b, nenv) {
-					rf := facts.union(ps)
-					if rf.contradictory() {
+			for _, tg := range ts {
+				nenv := x.activate(tg, call.Call.Args, senv, call, "call")
+				for _, b := range tg.Fn.Blocks {
+					if (b.Index != 0 && len(b.Preds) == 0) || len(b.Instrs) == 0 {
 						continue
 					}
-					out = append(out, c.cases(ret.Results[0], nenv, rf, depth+1)...)
+					ret, isRet := b.Instrs[len(b.Instrs)-1].(*ssa.Return)
+					if !isRet || len(ret.Results) <= idx {
+						continue
+					}
+					for _, ps := range c.paths(b, nenv) {
+						rf := facts.union(ps)
+						if rf.contradictory() {
+							continue
+						}
+						out = append(out, c.cases(ret.Results[idx], nenv, rf, depth+1)...)
+					}
 				}
 			}
 			if len(out) > 0 {
@@ -970,13 +1407,22 @@ func c15ExpDecodable(fns []*ssa.Function, cfg c15Cfg) (bool, string) {
 			case *ssa.DebugRef:
 			case *ssa.Call:
 				obj := calleeObj(t)
-				if obj == nil || obj.Pkg() == nil || obj.Pkg().Path() != "time" {
+				if g := staticCallee(t); g != nil && len(g.Blocks) > 0 && g.Pkg != nil && depth < 3 && strings.HasPrefix(cfg.EntryT, g.Pkg.Pkg.Path()+".") {
+					// passed on to a helper of the program: follow the parameter
+					for i, a := range t.Call.Args {
+						if a == v && i < len(g.Params) {
+							checkUses(g.Params[i], depth+1)
+						}
+					}
+					continue
+				}
+				if obj == nil || obj.Pkg() == nil || (obj.Pkg().Path() != "time" && obj.Name() != "Since" && obj.Name() != "Until") {
 					bad(r)
 					continue
 				}
 				switch obj.Name() {
 				case "After", "Before", "Equal":
-				case "Compare", "Sub":
+				case "Compare", "Sub", "Since", "Until":
 					for _, rr := range refs(t) {
 						bo, isB := rr.(*ssa.BinOp)
 						if _, isD := rr.(*ssa.DebugRef); isD {
@@ -1021,4 +1467,318 @@ func c15ExpDecodable(fns []*ssa.Function, cfg c15Cfg) (bool, string) {
 		})
 	}
 	return ok, why
+}
+
+// ------------------------------------------------------ following the calls
+
+// c15Site is an instruction in one activation.
+type c15Site struct {
+	In  ssa.Instruction
+	Env *c15Env
+}
+
+func c15LiveBlock(b *ssa.BasicBlock) bool { return b.Index == 0 || len(b.Preds) > 0 }
+
+func (x *c15X) onStack(env *c15Env, f *ssa.Function) bool {
+	for e := env; e != nil; e = e.up {
+		if e.fn == f {
+			return true
+		}
+	}
+	return false
+}
+
+// walk visits every instruction executed by an activation of fn, following
+// calls (static, bound methods, closures, func values with known targets,
+// go / defer) into the functions of the program, and function-typed arguments
+// handed to code outside the program (ForEach callbacks, sync.Once.Do, …),
+// which are visited as activations of kind "callback" entered at that call.
+// skip(f) stops the descent into f. unknown is called for calls through func
+// values whose targets cannot be resolved.
+func (x *c15X) walk(ctx *c15Ctx, fn *ssa.Function, env *c15Env, skip func(*ssa.Function) bool, visit func(in ssa.Instruction, env *c15Env), unknown func(in ssa.Instruction, env *c15Env)) {
+	root := fn
+	var rec func(fn *ssa.Function, env *c15Env)
+	enter := func(tg c15Target, args []ssa.Value, env *c15Env, in ssa.Instruction, how string) {
+		if !x.inlinable(tg.Fn) || (skip != nil && skip(tg.Fn)) || x.onStack(env, tg.Fn) || tg.Fn == root || env.depthOf() > 8 {
+			return
+		}
+		nenv := x.activate(tg, args, env, in, how)
+		nenv.pre = ctx.at(in.Block(), env)
+		rec(tg.Fn, nenv)
+	}
+	rec = func(fn *ssa.Function, env *c15Env) {
+		for _, b := range fn.Blocks {
+			if !c15LiveBlock(b) {
+				continue
+			}
+			for _, in := range b.Instrs {
+				visit(in, env)
+				ci, ok := in.(ssa.CallInstruction)
+				if !ok {
+					continue
+				}
+				cc := ci.Common()
+				how := "call"
+				switch in.(type) {
+				case *ssa.Go:
+					how = "go"
+				case *ssa.Defer:
+					how = "defer"
+				}
+				ts, unk := x.callTargets(cc, env)
+				if unk && unknown != nil {
+					unknown(in, env)
+				}
+				internal := false
+				for _, tg := range ts {
+					if x.inlinable(tg.Fn) {
+						internal = true
+						enter(tg, cc.Args, env, in, how)
+					}
+				}
+				if internal || unk {
+					continue
+				}
+				// the callee is outside the program: function-typed arguments may run during the call
+				for _, a := range cc.Args {
+					if _, isSig := a.Type().Underlying().(*types.Signature); !isSig {
+						continue
+					}
+					fts, _ := x.funcValues(a, env, 0)
+					for _, tg := range fts {
+						enter(tg, nil, env, in, "callback")
+					}
+				}
+			}
+		}
+	}
+	rec(fn, env)
+}
+
+// must: every return of the activation (fn, env) is preceded by an instruction
+// satisfying ev. Deferred calls count where they run; a call all of whose
+// possible targets are functions of the program that themselves always pass ev
+// counts. nRet is the number of live returns.
+func (x *c15X) must(fn *ssa.Function, env *c15Env, ev func(in ssa.Instruction, env *c15Env) bool, depth int) (ok bool, nRet int, where token.Pos) {
+	hit := func(in ssa.Instruction) bool {
+		if ev(in, env) {
+			return true
+		}
+		ci, isCall := in.(ssa.CallInstruction)
+		if !isCall {
+			return false
+		}
+		if _, isGo := in.(*ssa.Go); isGo {
+			return false
+		}
+		if depth > 4 {
+			x.mustUnsure = true
+			return false
+		}
+		ts, unk := x.callTargets(ci.Common(), env)
+		if unk {
+			x.mustUnsure = true
+			return false
+		}
+		if len(ts) == 0 {
+			return false
+		}
+		for _, tg := range ts {
+			if !x.inlinable(tg.Fn) {
+				return false
+			}
+			if x.onStack(env, tg.Fn) || tg.Fn == fn {
+				x.mustUnsure = true
+				return false
+			}
+			o, n, _ := x.must(tg.Fn, x.activate(tg, ci.Common().Args, env, in, "call"), ev, depth+1)
+			if !o || n == 0 {
+				return false
+			}
+		}
+		return true
+	}
+	var ff *FlagFlow
+	ff = &FlagFlow{Fn: fn, Must: true, Transfer: func(in ssa.Instruction, st uint64) uint64 {
+		if _, isD := in.(*ssa.Defer); isD && !ff.Replaying {
+			return st
+		}
+		if hit(in) {
+			return st | 1
+		}
+		return st
+	}}
+	ff.Run()
+	ok = true
+	ff.AtReturns(func(ret *ssa.Return, st uint64) {
+		if !c15LiveBlock(ret.Block()) {
+			return
+		}
+		nRet++
+		if st&1 == 0 {
+			ok = false
+			where = instrPos(ret)
+		}
+	})
+	return
+}
+
+// feasibleMust: on every feasible acyclic path of the activation (fn, env)
+// from entry to a return, an instruction satisfying ev is executed. Paths
+// whose branch conditions can never hold in this activation (a predicate
+// bound to a closure that always returns true, a func value known to be nil,
+// contradictory tests) are not paths.
+func (c *c15Ctx) feasibleMust(fn *ssa.Function, env *c15Env, ev func(in ssa.Instruction) bool) (ok bool, where token.Pos, witness c15Set) {
+	ok = true
+	onPath := map[*ssa.BasicBlock]bool{}
+	budget := 4096
+	var dfs func(b *ssa.BasicBlock, facts c15Set, seen bool)
+	dfs = func(b *ssa.BasicBlock, facts c15Set, seen bool) {
+		if budget <= 0 || !ok {
+			return
+		}
+		budget--
+		onPath[b] = true
+		defer delete(onPath, b)
+		for _, in := range b.Instrs {
+			if ev(in) {
+				seen = true
+			}
+			if ret, isRet := in.(*ssa.Return); isRet && !seen {
+				ok, where, witness = false, instrPos(ret), facts
+				return
+			}
+		}
+		for _, s := range b.Succs {
+			if onPath[s] {
+				continue
+			}
+			ef, never := c.edgeFactsX(b, s, env, 0)
+			if never {
+				continue
+			}
+			u := facts.union(ef)
+			if u.contradictory() {
+				continue
+			}
+			dfs(s, u, seen)
+		}
+	}
+	if len(fn.Blocks) > 0 {
+		starts := []c15Set{{}}
+		if env != nil && len(env.pre) > 0 {
+			starts = env.pre
+		}
+		for _, st := range starts {
+			dfs(fn.Blocks[0], st, false)
+		}
+	}
+	return
+}
+
+// c15Reach: starting at the terminator of block `from` reached through
+// `pred` (nil = mid-block start), with the boolean values in known, can
+// control reach block target again? 0 = no; 1 = only through branches whose
+// outcome is not determined; 2 = yes, through jumps and determined branches
+// only. Reaching a return calls atReturn with the values known there.
+func c15Reach(from, pred, target *ssa.BasicBlock, known map[ssa.Value]bool, atReturn func(ret *ssa.Return, known map[ssa.Value]bool, certain bool)) int {
+	best := 0
+	type key struct {
+		b, p    *ssa.BasicBlock
+		certain bool
+	}
+	visited := map[key]bool{}
+	var eval func(v ssa.Value, kn map[ssa.Value]bool) (bool, bool)
+	eval = func(v ssa.Value, kn map[ssa.Value]bool) (bool, bool) {
+		if b, ok := kn[v]; ok {
+			return b, true
+		}
+		switch t := v.(type) {
+		case *ssa.Const:
+			if t.Value != nil && t.Value.Kind() == constant.Bool {
+				return constant.BoolVal(t.Value), true
+			}
+		case *ssa.UnOp:
+			if t.Op == token.NOT {
+				if b, ok := eval(t.X, kn); ok {
+					return !b, true
+				}
+			}
+		case *ssa.BinOp:
+			if t.Op == token.EQL || t.Op == token.NEQ {
+				a, oka := eval(t.X, kn)
+				b, okb := eval(t.Y, kn)
+				if oka && okb {
+					return (a == b) == (t.Op == token.EQL), true
+				}
+			}
+		}
+		return false, false
+	}
+	var visit func(b, p *ssa.BasicBlock, kn map[ssa.Value]bool, certain bool, first bool)
+	visit = func(b, p *ssa.BasicBlock, kn map[ssa.Value]bool, certain bool, first bool) {
+		if !first {
+			if b == target {
+				if certain {
+					best = 2
+				} else if best < 1 {
+					best = 1
+				}
+				return
+			}
+			k := key{b, p, certain}
+			if visited[k] {
+				return
+			}
+			visited[k] = true
+			// phis take the value of the edge we came through
+			if p != nil {
+				nk := map[ssa.Value]bool{}
+				for a, v := range kn {
+					nk[a] = v
+				}
+				for _, in := range b.Instrs {
+					phi, ok := in.(*ssa.Phi)
+					if !ok {
+						break
+					}
+					delete(nk, phi)
+					for i, pr := range b.Preds {
+						if pr == p && i < len(phi.Edges) {
+							if val, ok := eval(phi.Edges[i], kn); ok {
+								nk[phi] = val
+							}
+						}
+					}
+				}
+				kn = nk
+			}
+		}
+		if len(b.Instrs) == 0 {
+			return
+		}
+		switch t := b.Instrs[len(b.Instrs)-1].(type) {
+		case *ssa.Return:
+			if atReturn != nil {
+				atReturn(t, kn, certain)
+			}
+		case *ssa.If:
+			if val, ok := eval(t.Cond, kn); ok {
+				if val {
+					visit(b.Succs[0], b, kn, certain, false)
+				} else {
+					visit(b.Succs[1], b, kn, certain, false)
+				}
+				return
+			}
+			visit(b.Succs[0], b, kn, false, false)
+			visit(b.Succs[1], b, kn, false, false)
+		default:
+			for _, s := range b.Succs {
+				visit(s, b, kn, certain, false)
+			}
+		}
+	}
+	visit(from, pred, known, true, true)
+	return best
 }
